@@ -169,7 +169,8 @@ func checkC13(c *km.Ctx) {
 	{
 		nFields := 0
 		if pk := c.P.Pkg("cmd/keymasterd"); pk != nil {
-			if tn, ok := pk.Pkg.Scope().Lookup("OpenIDConnectClientConfig").(*types.TypeName); ok {
+			cur := km.CurrentTypeName(KMD + ".OpenIDConnectClientConfig")
+			if tn, ok := pk.Pkg.Scope().Lookup(cur[strings.LastIndex(cur, ".")+1:]).(*types.TypeName); ok {
 				if st, ok := tn.Type().Underlying().(*types.Struct); ok {
 					for i := 0; i < st.NumFields(); i++ {
 						if n := st.Field(i).Name(); n == "AllowedRedirectURLRE" || n == "AllowedRedirectDomains" {
